@@ -18,6 +18,7 @@ import Gv.Proofs.PhylipHeader
 import Gv.Proofs.NexusHeader
 import Gv.Proofs.PhylipMulti
 import Gv.Proofs.Utf8Norm
+import Gv.Proofs.Utf8Header
 /-!
 C03 — parsers terminate on every input with an error or a well-formed result.
 
@@ -965,21 +966,32 @@ theorem phylip_parseBytes_ascii (af : Bool) (o : POpts) (bs : List Byte) (h : al
     Phylip.parseBytes af o bs = Phylip.parse af o bs := by
   unfold Phylip.parseBytes; rw [Gv.Proofs.Utf8Norm.norm_of_ascii bs h]
 
+/-- the naive header scanner and the blank-input test read the same thing off the raw input and off what the lexer
+holds, ALL byte strings (the scanners read ASCII blanks, signs and digits and stop at the first other byte; `norm` keeps
+every ASCII byte in place and writes bytes ≥ 0x80 for everything else) -/
+theorem phylip_header_reading_raw (bs : List Byte) :
+    Spec.Fmt.declaredPhylip (Utf8.norm bs) = Spec.Fmt.declaredPhylip bs ∧
+    Spec.Fmt.blankToNul (Utf8.norm bs) = Spec.Fmt.blankToNul bs :=
+  ⟨Gv.Proofs.Utf8Header.declaredPhylip_norm bs, Gv.Proofs.Utf8Header.blankToNul_norm bs⟩
+
 /-- **Phylip (strict and relaxed) on the raw input, the complete C03 statement for ALL byte strings** (bytes ≥ 128
 included; strict names are ten RUNES) and all options: an explicit error, an exit with a message, the end-of-stream marker
-(then what the lexer read is blank up to its first NUL), or an alignment that is well formed - rectangular in BYTES AS
-WRITTEN - and agrees with the counts of the header line as the lexer holds it; never a panic, never a hang. -/
+(then the RAW input is blank up to its first NUL), or an alignment that is well formed - rectangular in BYTES AS
+WRITTEN - and agrees with the counts of the header line of the RAW input (the reading of the oracle predicate); never a
+panic, never a hang. -/
 theorem phylip_outcome_bytes (o : POpts) (bs : List Byte) :
     match Phylip.parseBytes false o bs with
     | .ok (some a) =>
       Spec.Fmt.wellFormed a.length a.rows = true ∧
-      (match Spec.Fmt.declaredPhylip (Utf8.norm bs) with
+      (match Spec.Fmt.declaredPhylip bs with
        | some (dn, dl) => Spec.Fmt.rowsOk (normIgnore o.ignore != 0) (a.rows.length : Int) dn = true ∧ a.length = dl
        | none => True)
-    | .ok none => Spec.Fmt.blankToNul (Utf8.norm bs) = true
+    | .ok none => Spec.Fmt.blankToNul bs = true
     | .error | .exit => True
-    | .panic | .hang => False :=
-  phylip_outcome_full o (Utf8.norm bs)
+    | .panic | .hang => False := by
+  have h := phylip_outcome_full o (Utf8.norm bs)
+  rw [(phylip_header_reading_raw bs).1, (phylip_header_reading_raw bs).2] at h
+  exact h
 
 /-- **`ParseMultiple` on the raw input terminates**, ALL byte strings and options: alignments handed on are well formed;
 no panic, no hang, no allocation band. -/
